@@ -475,7 +475,7 @@ def run_impl(exe, cases, env=None, per_case_timeout=20):
         batch = cases[i:]
         try:
             rc, out, err = sh([exe], stdin='\n'.join(fmt_case(c) for c in batch) + '\n', env=e,
-                              timeout=per_case_timeout + 0.02 * len(batch))
+                              timeout=per_case_timeout + 0.05 * len(batch))
         except subprocess.TimeoutExpired as te:
             out = (te.stdout or b'').decode(errors='replace') if isinstance(te.stdout, bytes) else (te.stdout or '')
             rc, err = -9, 'TIMEOUT'
@@ -488,8 +488,31 @@ def run_impl(exe, cases, env=None, per_case_timeout=20):
                 break
         res.extend(good)
         i += len(good)
-        if i < len(cases) and (rc != 0 or len(good) < len(batch)):
-            summ = 'TIMEOUT' if err == 'TIMEOUT' else san_summary(err, rc)
+        if i < len(cases) and err == 'TIMEOUT':
+            # the BATCH ran out of time (slow cases, or a loaded machine): that says nothing about the case it happened to be working on.
+            # Decide that case alone, with a generous limit; only a case that does not finish on its own is reported as TIMEOUT.
+            # (false alarm of the third full thorough run: an ordinary 13-op case was blamed while 20 other jobs were running)
+            try:
+                rc1, out1, err1 = sh([exe], stdin=fmt_case(cases[i]) + '\n', env=e, timeout=max(120, 6 * per_case_timeout))
+                l1 = out1.splitlines()
+                ok1 = False
+                if l1:
+                    try:
+                        o1 = [int(x) for x in l1[0].split()]
+                        ok1 = True
+                    except ValueError:
+                        ok1 = False
+                if ok1 and rc1 == 0:
+                    res.append(o1)
+                elif ok1:
+                    res.append(['CRASH', san_summary(err1, rc1) + ' (at exit)'])
+                else:
+                    res.append(['CRASH', san_summary(err1, rc1)])
+            except subprocess.TimeoutExpired:
+                res.append(['CRASH', 'TIMEOUT'])
+            i += 1
+        elif i < len(cases) and (rc != 0 or len(good) < len(batch)):
+            summ = san_summary(err, rc)
             res.append(['CRASH', summ])
             i += 1
         elif rc != 0 and good and len(good) == len(batch):
